@@ -650,6 +650,31 @@ func (fr *Frame) applyContract(ins ssa.CallInstruction, ci *calleeInfo, args []T
 	if fc.Trusted {
 		c.assumed["assumed contract: "+shortKey(fc.Key)] = true
 	}
+	if len(fc.PanicsWhen) > 0 {
+		// the callee panics exactly under its declared condition: the caller must be allowed to
+		// panic then (and must not have written anything), and continues only otherwise
+		var conds []Term
+		for _, cl := range fc.PanicsWhen {
+			t, err := envPre.evalBool(cl.E)
+			if err != nil {
+				panic(evalError{fmt.Sprintf("panics_when of %s: %v", shortKey(fc.Key), err)})
+			}
+			conds = append(conds, t)
+		}
+		pc := or(conds...)
+		top := fr.topFrame()
+		saveReach := fr.reach
+		fr.reach = and(saveReach, pc)
+		if top.fc != nil && len(top.fc.PanicsWhen) > 0 {
+			if !fr.ignored("panic.callee") {
+				fr.oblige("panic.callee", "", top.panicCond(), ins.Pos(), "callee "+shortKey(fc.Key)+" panics only when the caller may")
+				fr.panicNoChange(ins.Pos())
+			}
+		} else if !(top.recovers || (top.fc != nil && top.fc.Recover)) {
+			fr.oblige("safety.panic", "", tFalse, ins.Pos(), "callee "+shortKey(fc.Key)+" does not panic here")
+		}
+		fr.reach = and(saveReach, not(pc))
+	}
 	post := pre.clone()
 	if !fc.Pure {
 		m := fr.preciseModSet(fc, envPre)
